@@ -170,6 +170,30 @@ Theorem C16_dispatch_no_panic : forall i dst tag now,
 Proof. exact dispatch_no_panic. Qed.
 Print Assumptions C16_dispatch_no_panic.
 
+(* The socket-level simulation of Interface::poll that the correspondence stream `neigh` compares
+   with the real crate (sim_step: sends, queued rx frames, route / address changes, polls with the
+   ingress loop and the repeated socket_egress passes) is a sequence of interface events with the
+   same final interface and the same timed frames, so every theorem above applies to it. *)
+Theorem C16_sim_refines_events : forall evs st st' tfr,
+  sim_trace st evs = Ok (st', tfr) ->
+  exists nevs, nh_run (sim_if st) nevs = Ok (sim_if st', tfr).
+Proof. exact sim_trace_refines. Qed.
+Print Assumptions C16_sim_refines_events.
+
+Theorem C16_sim_discovery_rate : forall ether hw cap rcap qcap kinds evs st tfr a t1 b t2 c,
+  sim_trace (sim_init ether hw cap rcap qcap kinds) evs = Ok (st, tfr) ->
+  req_times tfr = a ++ t1 :: b ++ t2 :: c ->
+  t1 + 1000000 <= t2.
+Proof. exact sim_discovery_rate. Qed.
+Print Assumptions C16_sim_discovery_rate.
+
+Theorem C16_sim_cache_bounded : forall ether hw cap rcap qcap kinds evs st tfr, 1 <= cap ->
+  sim_trace (sim_init ether hw cap rcap qcap kinds) evs = Ok (st, tfr) ->
+  Z.of_nat (length (c_storage (if_cache (sim_if st)))) <= cap /\
+  NoDup (map fst (c_storage (if_cache (sim_if st)))).
+Proof. exact sim_cache_bounded. Qed.
+Print Assumptions C16_sim_cache_bounded.
+
 (* Non-vacuity: concrete histories in which every clause above is exercised. *)
 Theorem C16_example :
   exists i,
